@@ -21,6 +21,14 @@ def gen_case(seed, i):
                               alphabet=gen.DEG_ALPHABET[:9], p_parallel=.1)
     elif r < .8:
         cs = gen.gen_settings(rnd, n_src=(1, 3), n_tgt=(1, 2), p_patterns=.6, p_override=.2, p_parallel=.1)
+    elif r < .84:
+        # nearly degenerate: one open-ended node against a few nodes that are (almost) pinned -- a handful of
+        # connection sets; candidate codings that recognise the shape may end up with a one-valued variable
+        one = [{'deg': {'min': rnd.choice([0, 0, 1])}, 'rep': rnd.random() < .3}]
+        many = [{'deg': {'list': rnd.choice([[1], [1], [0, 1], [0, 1], [2], [1, 2]])}, 'rep': False}
+                for _ in range(rnd.randint(2, 3))]
+        src, tgt = (one, many) if rnd.random() < .6 else (many, one)
+        cs = {'src': src, 'tgt': tgt, 'excluded': [], 'patterns': None, 'max_conn_parallel': None}
     elif r < .9:
         # degenerate: exactly one or zero connection sets
         cs = {'src': [{'deg': {'list': [1]}, 'rep': False}], 'tgt': [{'deg': {'list': [rnd.choice([1, 2])]},
@@ -564,11 +572,46 @@ def large_case(task, col):
                 return
 
 
+def family_settings(quick):
+    """Deterministic family of nearly degenerate settings: one open-ended node against 2-3 (almost) pinned ones.  They
+    have a handful of connection sets, and several candidate codings recognise the shape but end up with a one-valued
+    variable and reject the settings -- selection has to skip those candidates."""
+    degs = [[1], [0, 1]] if quick else [[1], [0, 1], [2], [1, 2]]
+    reps = [(False, False), (True, True)] if quick else [(False, False), (True, True), (True, False), (False, True)]
+    out = []
+    for mn in (0, 1):
+        for k in (2, 3):
+            for combo in itertools.product(degs, repeat=k):
+                for rep1, repm in reps:
+                    for transposed in (False, True):
+                        one = [{'deg': {'min': mn}, 'rep': rep1}]
+                        many = [{'deg': {'list': list(c)}, 'rep': repm} for c in combo]
+                        out.append({'src': many if transposed else one, 'tgt': one if transposed else many,
+                                    'excluded': [], 'patterns': None, 'max_conn_parallel': None})
+    return out
+
+
+def family_case(task, col):
+    fam = family_settings(task['quick'])
+    for j in range(task['which'], len(fam), task['of']):
+        cs = fam[j]
+        col.evaluations += 1
+        col.count('monitor_family_selections')
+        mgr, _ = select(cs, col, {'family': True}, timeout=10, cache=False, label='family')
+        if mgr is not None:
+            check_working(mgr, cs, col, {'family': True}, 'family')
+            col.sample({'family': j, 'encoder': type(mgr.encoder).__name__,
+                        'n_dv': len(mgr.design_vars)}) if j < 3 else None
+
+
 def worker(task, col):
     from adsg_core.optimization.assign_enc.selector import EncoderSelector
     M.Tap(EncoderSelector, 'get_best_assignment_manager', counter=col.count)
     if task.get('kind') == 'large':
         large_case(task, col)
+        return
+    if task.get('kind') == 'family':
+        family_case(task, col)
         return
     if task.get('replay'):
         v = task['replay']['violation']
@@ -608,6 +651,10 @@ def main(run):
             ta.append(dict(t, kind='a', _cache_dir=d))
         for k in range(3 if quick else 6):
             ta.append({'kind': 'large', 'which': k, 'shard': 9000 + k, 'lo': 0, 'hi': 0, 'seed': run.seed})
+        nf = 2 if quick else 8
+        for k in range(nf):
+            ta.append({'kind': 'family', 'which': k, 'of': nf, 'quick': quick, 'shard': 9100 + k, 'lo': 0, 'hi': 0,
+                       'seed': run.seed})
         run.map(ta, timeout=3400)
         tb = []
         for t, d in zip(shards, dirs):
